@@ -1966,14 +1966,15 @@ where
             self.store.add(packet.clone().try_into().unwrap()).unwrap();
         }
 
+        // The exchange awaits PUBCOMP whether the PUBREL goes out now or is queued for the resume
+        self.pid_pubcomp.insert(packet_id);
         if self.status == ConnectionStatus::Connected {
-            self.pid_pubcomp.insert(packet_id);
             events.push(GenericEvent::RequestSendPacket {
                 packet: packet.into(),
                 release_packet_id_if_send_error: None,
             });
+            self.send_post_process(&mut events);
         }
-        self.send_post_process(&mut events);
 
         events
     }
@@ -2002,14 +2003,15 @@ where
             self.store.add(packet.clone().try_into().unwrap()).unwrap();
         }
 
+        // The exchange awaits PUBCOMP whether the PUBREL goes out now or is queued for the resume
+        self.pid_pubcomp.insert(packet_id);
         if self.status == ConnectionStatus::Connected {
-            self.pid_pubcomp.insert(packet_id);
             events.push(GenericEvent::RequestSendPacket {
                 packet: packet.into(),
                 release_packet_id_if_send_error: None,
             });
+            self.send_post_process(&mut events);
         }
-        self.send_post_process(&mut events);
 
         events
     }
